@@ -4,6 +4,7 @@ package verifharness
 
 import (
 	"context"
+	"fmt"
 	"testing"
 	"testing/synctest"
 
@@ -46,20 +47,26 @@ func TestC07(t *testing.T) {
 			}
 		}
 	}
-	// the known race of C07_recv_refuted, replayed (free-running inside the step): 40 attempts
+	// regression of D-07s with the forced schedule (the select of the loop's Read is random: 40 repetitions)
 	for i := 0; i < 40; i++ {
 		if want(idx) {
-			runCwScenario(t, idx, "c07-race", c07RaceScenario([]string{"Bidi", "CStream", "SStream"}[i%3]), em)
+			runCwScenario(t, idx, "c07-race", c07RaceScenario([]string{"Bidi", "CStream", "SStream"}[i%3], (i/3)%2), em)
 		}
 		idx++
 	}
 }
 
-// c07RaceScenario: the witness of C07_recv_refuted (cancel, then SendMsg without yielding, then RecvMsg)
-func c07RaceScenario(kind string) cwScenario {
-	return cwScenario{Mode: "e2e", Steps: []Step{{Op: "open", Kind: kind}, {Op: "c2s"}, {Op: "cancelsend", C: 0, B: 33}, {Op: "recv", C: 0},
-		{Op: "drain"}, hop(0, HOp{Op: "await"}), hop(0, HOp{Op: "return", Ctx: true}), {Op: "drain"}},
-		Tags: []string{"c07", "kind:" + kind, "race:cancel-then-send", "sig:recv-closed-after-cancel-send"}}
+// c07RaceScenario: regression of D-07s (fixed in /repo 72f38d7) with the schedule forced: the stream loop is held at
+// the yield point cs.loop.read after it has handed a response to a RecvMsg; the caller cancels and calls SendMsg, which
+// tears the registration down; then the loop enters Read with the handler closed AND the context cancelled. Every
+// RecvMsg afterwards must report the Canceled status (never "respChan closed").
+func c07RaceScenario(kind string, unread int) cwScenario {
+	s := []Step{{Op: "open", Kind: kind}, {Op: "holdloop"}, {Op: "recv", C: 0}, {Op: "peer", Env: bodyEnv(0, 21)}}
+	for i := 0; i < unread; i++ {
+		s = append(s, Step{Op: "peer", Env: bodyEnv(0, int64(30+i))})
+	}
+	s = append(s, Step{Op: "cancelsendf", C: 0, B: 33}, Step{Op: "recv", C: 0}, Step{Op: "send", C: 0, B: 34}, Step{Op: "recv", C: 0})
+	return cwScenario{Mode: "client", Steps: s, Tags: []string{"c07", "kind:" + kind, "race:cancel-then-send-forced", fmt.Sprintf("unread:%d", unread)}}
 }
 
 // TestC11: abandoned streams (handler returns early / caller cancels or stops reading / peer over-sends), other
